@@ -58,6 +58,9 @@ func mkScenario(t *testing.T, o scOpt) *w.Scenario {
 
 // explore runs one scenario and accumulates coverage numbers in run.
 func explore(t *testing.T, run *h.Run, sc *w.Scenario, maxStates int) *w.Explorer {
+	if maxStates == 0 {
+		maxStates = 2500000
+	}
 	ex := &w.Explorer{T: t, Run: run, Sc: sc, MaxStates: maxStates}
 	ex.Explore()
 	fmt.Printf("  %-28s states=%-7d transitions=%-8d depth=%-3d capped=%v\n", sc.Name, ex.States, ex.Transitions, ex.Depth, ex.Capped)
@@ -83,6 +86,9 @@ func runWorld(t *testing.T, run *h.Run, scs []scOpt, mons []func(*w.MonCtx), max
 	for _, o := range scs {
 		o.mons = mons
 		sc := mkScenario(t, o)
+		if maxStates == 0 {
+			maxStates = 2500000 // memory safety cap per scenario; hitting it is reported as exhaustive:false
+		}
 		ex := &w.Explorer{T: t, Run: run, Sc: sc, MaxStates: maxStates}
 		if len(visit) > 0 {
 			ex.Visit = func(s *w.State, d int) { visit[0](sc, s, d) }
